@@ -36,6 +36,7 @@ pub fn events() -> Vec<Ev> {
     // runs that fail on their own (no injection): a fatal I/O error while
     // reading a stored publication point
     res.push(Ev::RealFail("stored-point-unreadable"));
+    res.push(Ev::RealFail("stored-ta-unreadable"));
     res
 }
 
@@ -46,6 +47,8 @@ struct RealEnvs {
     no_ta: (routinator::Config, &'static routinator::engine::Engine),
     /// a stored publication point that cannot be read: fatal
     unreadable: (routinator::Config, &'static routinator::engine::Engine),
+    /// a stored trust anchor certificate that cannot be read: fatal
+    ta_unreadable: (routinator::Config, &'static routinator::engine::Engine),
 }
 
 thread_local! {
@@ -85,9 +88,23 @@ fn make_real(scratch: &std::path::Path) -> RealEnvs {
     std::fs::create_dir_all(&path).unwrap();
     let mut engine_b = routinator::engine::Engine::new(&config_b, false).expect("engine");
     engine_b.ignite().expect("ignite");
+    // (c) filled store, then the stored TA certificate made unreadable
+    let case_c = Case::new(scratch.join(format!("real-c{n}")));
+    case_c.write_tals(&image);
+    case_c.publish(&image);
+    let config_c = case_c.config();
+    etree::run(&config_c, false, &routinator::slurm::LocalExceptions::empty()).expect("filling run");
+    let store = routinator::store::Store::new(&config_c).expect("store");
+    let ta_uri = rpki::repository::tal::TalUri::Rsync(rpki::uri::Rsync::from_str(&spec.tals[0].ta_uri).unwrap());
+    let path = store.verif_ta_path(&ta_uri);
+    std::fs::remove_file(&path).expect("stored TA file exists");
+    std::fs::create_dir_all(&path).unwrap();
+    let mut engine_c = routinator::engine::Engine::new(&config_c, false).expect("engine");
+    engine_c.ignite().expect("ignite");
     RealEnvs {
         no_ta: (config_a, Box::leak(Box::new(engine_a))),
         unreadable: (config_b, Box::leak(Box::new(engine_b))),
+        ta_unreadable: (config_c, Box::leak(Box::new(engine_c))),
     }
 }
 
@@ -192,13 +209,16 @@ fn run_seq(env: &Env, seq: &[Ev], states: &mut BTreeSet<String>) -> Result<(u64,
                     if i == 0 {
                         (false, Server::verif_process_once(&real.no_ta.0, real.no_ta.1, &history, &mut notify, &exc, true))
                     }
+                    else if *kind == "stored-ta-unreadable" {
+                        (true, Server::verif_process_once(&real.ta_unreadable.0, real.ta_unreadable.1, &history, &mut notify, &exc, false))
+                    }
                     else {
                         (true, Server::verif_process_once(&real.unreadable.0, real.unreadable.1, &history, &mut notify, &exc, false))
                     }
                 });
                 let what = if i == 0 { "initial run with a TAL whose trust anchor certificate is not stored" } else { *kind };
                 match res {
-                    Ok(()) => return Err(("failing-run-reported-success".into(), format!(
+                    Ok(()) => return Err((format!("failing-run-reported-success:{}", if i == 0 { "initial-no-ta" } else { kind }), format!(
                         "history {hist}: a run that cannot complete ({what}) was reported successful and its result published"
                     ))),
                     Err(e) => if e.is_fatal() != fatal_expected {
@@ -237,7 +257,7 @@ fn run_seq(env: &Env, seq: &[Ev], states: &mut BTreeSet<String>) -> Result<(u64,
                 if before != after {
                     let diff: Vec<String> = before.iter().zip(after.iter()).filter(|(a, b)| a != b)
                         .map(|(a, b)| format!("before <{}> after <{}>", cut(a), cut(b))).collect();
-                    return Err(("served-state-changed".into(), format!(
+                    return Err((format!("served-state-changed:{outcome:?}@{stage}"), format!(
                         "history {hist}: the failed run changed what is served: {}", diff.join("; ")
                     )))
                 }
@@ -291,7 +311,7 @@ fn ev_parse(v: &Value) -> Vec<Ev> {
             "ok" => Some(Ev::Ok(r.parse().ok()?)),
             "retry" => Some(Ev::Fail(RunOutcome::Retry, stage?)),
             "fatal" => Some(Ev::Fail(RunOutcome::Fatal, stage?)),
-            "real" => Some(Ev::RealFail("stored-point-unreadable")),
+            "real" => Some(Ev::RealFail(if r == "stored-ta-unreadable" { "stored-ta-unreadable" } else { "stored-point-unreadable" })),
             _ => None
         }
     }).collect()).unwrap_or_default()
@@ -300,7 +320,7 @@ fn ev_parse(v: &Value) -> Vec<Ev> {
 pub fn run(ctx: &Ctx) -> Report {
     util::quiet_panics();
     let mut rep = Report::new("model_checking");
-    let depth = if ctx.tier.thorough() { 6 } else { 5 };
+    let depth = if ctx.tier.thorough() { 6 } else { 4 };
     // Sequences of exactly `depth` events cover all shorter ones as prefixes.
     let seqs = all_seqs(depth);
     rep.rule = "every sequence of `depth` events over {successful run \
@@ -309,7 +329,8 @@ pub fn run(ctx: &Ctx) -> Report {
         run-outcome hooks); run failing on its own: as first event the \
         initial store-only run of an engine with a TAL whose trust anchor \
         certificate is not stored (retryable), later a run of an engine \
-        whose stored publication point cannot be read (fatal)} executed through the server's real update \
+        whose stored publication point, resp. stored trust anchor \
+        certificate, cannot be read (fatal)} executed through the server's real update \
         sequence on a fresh history; around every failing event the full \
         observable state is compared: readiness, notify state, reset \
         answer, serial-query answer for every serial 0..current+1, the \
@@ -350,8 +371,7 @@ pub fn run(ctx: &Ctx) -> Report {
                 Err((class, msg)) => {
                     rep.outcome(format!("VIOLATION:{class}"));
                     // shortest failing prefix is in the message; fingerprint by class and failing event kind
-                    let kind = seq.iter().rev().find_map(|e| match e { Ev::Fail(o, s) => Some(format!("{o:?}@{s}")), Ev::RealFail(k) => Some(k.to_string()), _ => None }).unwrap_or_default();
-                    rep.violation(format!("failed-run:{class}:{kind}"), msg, json!({"events": ev_json(&seq)}));
+                    rep.violation(format!("failed-run:{class}"), msg, json!({"events": ev_json(&seq)}));
                 }
             }
         }
